@@ -29,6 +29,9 @@ ALLOWED_AXIOMS = {
     "classic", "Classical_Prop.classic",
     "JMeq_eq", "JMeq.JMeq_eq",
     "Eqdep.Eq_rect_eq.eq_rect_eq", "eq_rect_eq",
+    # Coq's axiomatisation of the real numbers (Reals / ClassicalDedekindReals), pulled in by Flocq in C12F only
+    "ClassicalDedekindReals.sig_not_dec", "sig_not_dec",
+    "ClassicalDedekindReals.sig_forall_dec", "sig_forall_dec",
 }
 FORBIDDEN = re.compile(
     r"\b(Admitted|admit|Axiom|Axioms|Parameter|Parameters|Conjecture|Admit Obligations|"
